@@ -54,6 +54,25 @@ class Item:
         return self.kind
 
 
+def bind_single_def_locals(sb, e, pre=None, depth=0):
+    """Give every single-definition local mentioned in expression e its defining expression in sb.env (recursively), so that
+    `const uint k = n/W+1; f(k)` and `f(n/W+1)` have the same symbolic value. pre(node) may seed env for names first."""
+    if depth > 6:
+        return
+    for x in walk(e):
+        if x["k"] == "DeclRefExpr" and x.get("dk") == "local":
+            p = ("local", x["d"])
+            if p in sb.env:
+                continue
+            ini = single_def_init(sb.f, x["d"])
+            if ini is None:
+                continue
+            if pre is not None:
+                pre(ini)
+            bind_single_def_locals(sb, ini, pre, depth + 1)
+            sb.env[p] = sb.sym(ini)
+
+
 class SeqBuilder:
     UID = 0
     """Walks a function body in source order, tracking symbolic values of locals / object fields in terms
@@ -97,6 +116,18 @@ class SeqBuilder:
             if p in self.env:
                 return self.env[p]
             if p[0] == "local":
+                if len(p) == 2 and self.mode == "c" and getattr(self, "_bind_depth", 0) < 6:
+                    # isolated evaluation: a local with a single definition stands for that definition
+                    ini = single_def_init(f, p[1])
+                    if ini is not None:
+                        self._bind_depth = getattr(self, "_bind_depth", 0) + 1
+                        try:
+                            v = self.sym(ini)
+                        finally:
+                            self._bind_depth -= 1
+                        if not (isinstance(v, tuple) and v and v[0] == "unk"):
+                            self.env[p] = v
+                            return v
                 s = ("local", p[1]) if len(p) == 2 else ("field", p)
             elif p[0] == "param":
                 s = ("param", p[1]) if len(p) == 2 else ("field", p)
@@ -153,17 +184,41 @@ class SeqBuilder:
         if callee is None or callee.body is None or getattr(self, "depth", 0) > 3:
             return None
         body = callee.body.get("c", [])
-        if len(body) != 1 or body[0]["k"] != "ReturnStmt" or body[0].get("value") is None:
+        if not body or body[-1]["k"] != "ReturnStmt" or body[-1].get("value") is None:
             return None
         obj = n.get("obj")
         same_this = obj is None or strip(obj)["k"] == "CXXThisExpr"
-        expr = body[0]["value"]
+        expr = body[-1]["value"]
+        pre = body[:-1]
+        # straight-line / if-only prefix that writes nothing but the callee's own locals and by-value parameters
+        for st in pre:
+            for x in walk(st):
+                if x["k"] in ("ReturnStmt", "ForStmt", "WhileStmt", "DoStmt", "CXXForRangeStmt", "SwitchStmt", "GotoStmt", "CXXTryStmt",
+                              "CallExpr", "CXXMemberCallExpr", "CXXOperatorCallExpr", "CXXConstructExpr", "LambdaExpr"):
+                    if x["k"] in ("CallExpr", "CXXMemberCallExpr") and self.db.funcs.get(x.get("f")) is not None:
+                        continue          # nested helper: handled (or left symbolic) by sym()
+                    return None
+                w = None
+                if is_assignment(x):
+                    w = x["lhs"]
+                elif x["k"] == "UnaryOperator" and x["op"] in ("++", "--"):
+                    w = x["sub"]
+                if w is not None:
+                    wp = access_path(callee, w)
+                    if wp is None or len(wp) != 2 or wp[0] not in ("local", "param"):
+                        return None
+                    if wp[0] == "param" and callee.types[callee.params[wp[1]]["t"]]["kind"] in ("ptr", "ref"):
+                        return None
         for x in walk(expr):
-            if x["k"] == "CXXThisExpr" and not same_this:
-                return None
             if x["k"] in ("CXXNewExpr", "CXXDeleteExpr") or is_assignment(x) or \
                     (x["k"] == "UnaryOperator" and x["op"] in ("++", "--")):
                 return None
+        for st in list(pre) + [expr]:
+            for x in walk(st):
+                if x["k"] == "CXXThisExpr" and not same_this:
+                    return None
+                if x["k"] in ("CXXNewExpr", "CXXDeleteExpr"):
+                    return None
         sub = SeqBuilder(self.db, callee, "c", nosubst=True)
         sub.depth = getattr(self, "depth", 0) + 1
         for i, a in enumerate(n.get("args", [])):
@@ -173,6 +228,12 @@ class SeqBuilder:
         for p, v in self.env.items():
             if p[0] == "this":
                 sub.env.setdefault(p, v)
+        if pre:
+            scratch = []
+            for st in pre:
+                sub.stmt(st, scratch)
+            if scratch:
+                return None
         return sub.sym(expr)
 
     def subst(self, s):
